@@ -279,10 +279,14 @@ func (s *startGen) boards(depth int, base []string, containers []string) string 
 	return sb.String()
 }
 
-func genStart(t *rapid.T) map[string]string {
+func genStart(t *rapid.T, prop string) map[string]string {
 	s := &startGen{t: t}
 	files := map[string]string{}
-	mode := gen.Pick(t, "startmode", 5, 4, 2)
+	mw := []int{5, 4, 2}
+	if prop == "C41" {
+		mw = []int{1, 8, 2}
+	}
+	mode := gen.Pick(t, "startmode", mw...)
 	text, roots, conts := s.diagram(rapid.IntRange(3, 9).Draw(t, "maxobj"), 6)
 	if mode == 2 {
 		imp, _, _ := s.diagram(4, 3)
@@ -297,7 +301,7 @@ func genStart(t *rapid.T) map[string]string {
 			text += "imported: @imp\n"
 		}
 	}
-	if mode == 1 || (mode == 2 && gen.Pick(t, "imp+boards", 2, 1) == 1) {
+	if mode == 1 || (mode == 2 && (prop == "C41" || gen.Pick(t, "imp+boards", 2, 1) == 1)) {
 		text += s.boards(0, roots, conts)
 	}
 	files["index.d2"] = text
@@ -357,7 +361,7 @@ func genOp(t *rapid.T, prop string, boardsLikely bool) Op {
 
 func genCase(prop string) func(t *rapid.T) Case {
 	return func(t *rapid.T) Case {
-		c := Case{Files: genStart(t)}
+		c := Case{Files: genStart(t, prop)}
 		c.Ops = rapid.SliceOfN(rapid.Custom(func(t *rapid.T) Op { return genOp(t, prop, false) }), 1, hx.Pick(20, 60)).Draw(t, "ops")
 		return c
 	}
